@@ -6,6 +6,7 @@ import (
 	"testing"
 
 	"github.com/hashicorp/hcl-lang/lang"
+	"github.com/hashicorp/hcl/v2"
 	"github.com/hashicorp/hcl/v2/hclsyntax"
 
 	"verif/harness/gen"
@@ -82,6 +83,14 @@ func checkC13(c C13Case) Result {
 			toks := res.Val.([]lang.SemanticToken)
 			r.Evals++
 			fi := analyseFile(f.Name, hf)
+			// empty branches of template directives ("%{if c}%{else}x%{endif}") are empty string templates
+			emptyTemplates := map[int]bool{}
+			_ = hclsyntax.VisitAll(body, func(n hclsyntax.Node) hcl.Diagnostics {
+				if te, ok := n.(*hclsyntax.TemplateExpr); ok && te.Range().Empty() {
+					emptyTemplates[te.Range().Start.Byte] = true
+				}
+				return nil
+			})
 			// ---- part 1: on every file, broken or not
 			for i, t := range toks {
 				r.Class(string(t.Type))
@@ -93,7 +102,12 @@ func checkC13(c C13Case) Result {
 					if tainted {
 						r.Exclude("upstream-range")
 					} else {
-						r.Fail("token-empty:"+string(t.Type), "token %d (%s) is empty or inverted: %d-%d in\n%s", i, t.Type, t.Range.Start.Byte, t.Range.End.Byte, clip(f.Text, 600))
+						sig := "token-empty:" + string(t.Type)
+						if t.Type == lang.TokenString && t.Range.Start.Byte == t.Range.End.Byte && emptyTemplates[t.Range.Start.Byte] {
+							// known finding: the empty branch of a template directive gets an empty string token
+							sig += ":empty-directive-branch"
+						}
+						r.Fail(sig, "token %d (%s) is empty or inverted: %d-%d in\n%s", i, t.Type, t.Range.Start.Byte, t.Range.End.Byte, clip(f.Text, 600))
 					}
 				}
 				if i > 0 {
